@@ -11,11 +11,13 @@ Footprints, per operation kind (cells: 0 document, 1 routers, 2 `sliceUniqueItem
                                     read doc (+ router); per `pattern` keyword reached: cacheFill (sync.Map);
                                     when an array-typed schema is reached: lazyInit of the uniqueness checker
                                     (declared WITH an initialiser → never nil); default injection writes into
-                                    the decoded request value, which is per call — EXCEPT when the injected
-                                    default is itself an object into which nested defaults are injected: that
-                                    object lives in the document (`value[propName] = dflt` shares it) and the
-                                    nested injection is a plain guarded write into the document (finding F-C15-1)
-  openapi3gen.NewSchemaRefForValue  cacheFill of the type-info cache under `typeInfosMutex`
+                                    the decoded request value, which is per call; an object-valued default is
+                                    deep-copied first (`value[propName] = deepcopy.Copy(dflt)`; before commit
+                                    afcfd61 it was shared and nested defaults were written INTO the document:
+                                    F-C15-1, now a regression theorem) — the document's default is only read
+  openapi3gen.NewSchemaRefForValue  cacheFill of the type-info cache under `typeInfosMutex`: the first published
+                                    descriptor wins (before commit 9118e72 every first user stored its own and
+                                    cycle detection by pointer could see two: F-C15-2, now a regression theorem)
 -/
 import KinModel.Conc
 namespace KinModel.Conc
@@ -49,24 +51,17 @@ def validates : OpKind → Bool
   | .vreq | .vresp | .visit => true
   | _ => false
 
-/-- exclusion predicate of finding F-C15-1 on one operation -/
-def opExcl (o : OpM) : Bool := validates o.kind && o.defaultsOn && o.sharedDefault
-
-/-- exclusion predicate of finding F-C15-2 on one operation: `getTypeInfo` publishes its own descriptor
-    unconditionally and cycle detection compares descriptor POINTERS, so a generation that looks the
-    recursive type up again may get another goroutine's descriptor -/
-def opExclT (o : OpM) : Bool := o.kind = .gen && o.recursive
-
-/-- footprint of operation `o` when run by thread `tid` -/
-def opActs (tid : Nat) (o : OpM) : List Act :=
+/-- footprint of operation `o` when run by thread `tid` (the thread does not matter any more: both
+    footprints that depended on it were defects, F-C15-1 and F-C15-2, repaired in the library) -/
+def opActs (_tid : Nat) (o : OpM) : List Act :=
   [Act.read docCell] ++
   (if usesRouter o.kind then [Act.read routerCell] else []) ++
   (if validates o.kind then o.patterns.map (fun p => Act.cacheFill (patCell p) (p + 1)) else []) ++
   (if validates o.kind && o.arrays then [Act.lazyInit uniqCell 7] else []) ++
-  (if o.kind = .gen && !o.recursive then [Act.cacheFill (typeCell o.genType) (o.genType + 1)] else []) ++
-  (if validates o.kind && o.sharedDefault && !opExcl o then [Act.read dfltCell] else []) ++  -- error texts print the schema
-  (if opExcl o then [Act.lazyInit dfltCell 5] else []) ++
-  (if opExclT o then [Act.syncStore (typeCell o.genType) (1000 + tid), Act.syncRead (typeCell o.genType)] else [])
+  -- getTypeInfo: the first published descriptor wins — a fill, for recursive types too
+  (if o.kind = .gen then [Act.cacheFill (typeCell o.genType) (o.genType + 1)] else []) ++
+  -- an object-valued default is deep-copied into the request value; error texts print the schema: plain reads
+  (if validates o.kind && o.sharedDefault then [Act.read dfltCell] else [])
 
 structure CaseM where
   ops : List OpM
@@ -74,14 +69,6 @@ structure CaseM where
   per : Nat        -- operations per goroutine
   sched : Nat      -- seed of the interleaving
   deriving Repr
-
-/-- `SharedObjectDefault`: the exclusion predicate of finding F-C15-1 on a case -/
-def ExclSharedDefault (c : CaseM) : Bool := c.ops.any opExcl
-
-/-- `TypeInfoIdentity`: the exclusion predicate of finding F-C15-2 on a case -/
-def ExclTypeInfo (c : CaseM) : Bool := c.ops.any opExclT
-
-def Excl (c : CaseM) : Bool := ExclSharedDefault c || ExclTypeInfo c
 
 def caseCfg (c : CaseM) : Cfg :=
   { cache := (c.ops.flatMap (fun o => o.patterns.map patCell)) ++ c.ops.map (fun o => typeCell o.genType),
@@ -138,13 +125,6 @@ def outcomeOf (n : Nat) (tr : Trace) : Outcome :=
 
 /-- the model's outcome of a correspondence case -/
 def outcome (c : CaseM) : Outcome := outcomeOf c.g (caseTrace c)
-
-/-- inside the exclusion classes: what the recorded defects can make an execution show (upper bound; which of
-    it shows depends on the schedule) -/
-def mayOutcome (c : CaseM) : Outcome :=
-  { race := ExclSharedDefault c && decide (2 ≤ c.g),
-    diverge := Excl c && decide (2 ≤ c.g),
-    docChanged := ExclSharedDefault c }
 
 /-- the specification: no data race, every verdict as when run alone, the document untouched -/
 def specOutcome : Outcome := ⟨false, false, false⟩
